@@ -128,6 +128,7 @@ def _check(mod, meta, prop, tier, seed, repo, jobs, replay, workdir, t0, quiet):
     counters = {}
     violations, harness, samples = [], [], []
     distinct = set()
+    shard_samples = []
     inconclusive = []
     bindings = {}
     concepts_file = None
@@ -140,11 +141,12 @@ def _check(mod, meta, prop, tier, seed, repo, jobs, replay, workdir, t0, quiet):
         violations.extend(r.get('violations', []))
         harness.extend(r.get('harness_errors', []))
         distinct.update(r.get('distinct', []))
-        for s in r.get('samples', []):
-            if len(samples) < 8:
-                samples.append(s)
+        shard_samples.append(r.get('samples', []))
         bindings.update(r.get('bindings', {}))
         concepts_file = concepts_file or r.get('concepts_file')
+    for k, lst in enumerate(shard_samples):     # shard k contributes its (k mod n)-th sample:
+        if lst and len(samples) < 10:           # early (small) and late (large/rare family) cases
+            samples.append(lst[k % len(lst)])
     if harness:
         h = harness[0]
         inconclusive.append(f"{len(harness)} harness error(s), first: {h.get('where')}: "
